@@ -46,6 +46,13 @@ func (t *roTaint) seed(v ssa.Value, why string) {
 		return
 	}
 	if _, ok := t.why[v]; ok {
+		if t.holder[v] {
+			// known so far as a container that merely holds shared values: now it is shared itself
+			// (a recursive merge is handed the nested map it read out of its own destination)
+			delete(t.holder, v)
+			t.why[v] = why
+			t.work = append(t.work, v)
+		}
 		return
 	}
 	t.why[v] = why
@@ -149,7 +156,12 @@ func (t *roTaint) run() {
 				if x.Map == v {
 					t.violate(x, "map update", v)
 				} else if x.Value == v {
-					// stored as a map value: loads from maps are not tracked (unsound, named in DESIGN)
+					// stored as a map value: the map now holds a shared reference — what is read out of it again
+					// (a lookup, a range) is shared; writing further entries into the map itself is not a write
+					// through the shared value
+					if refOnly(v.Type()) {
+						t.seedHolder(x.Map, why+" → stored as a map value at "+t.p.instrPos(x))
+					}
 				}
 			case *ssa.Store:
 				if x.Addr == v {
@@ -220,6 +232,20 @@ func (t *roTaint) holderUse(u ssa.Instruction, v ssa.Value, why string) {
 		t.seedHolder(x.(ssa.Value), why)
 	case *ssa.Index:
 		t.seed(x, why)
+	case *ssa.Lookup:
+		if x.X == v && (refOnly(x.Type()) || x.CommaOk) {
+			if x.CommaOk {
+				if refs := x.Referrers(); refs != nil {
+					for _, r := range *refs {
+						if ex, ok := r.(*ssa.Extract); ok && ex.Index == 0 && refOnly(ex.Type()) {
+							t.seed(ex, why)
+						}
+					}
+				}
+			} else {
+				t.seed(x, why)
+			}
+		}
 	case *ssa.IndexAddr:
 		if x.X == v {
 			if refs := x.Referrers(); refs != nil {
